@@ -6,7 +6,7 @@ from fractions import Fraction
 
 import numpy as np
 
-from common import enc_list, errname
+from common import enc_float, enc_list, errname
 
 PROP = "C04"
 THEOREMS = [
@@ -16,6 +16,7 @@ THEOREMS = [
     "Verif.C04.over_complete",
     "Verif.C04.over_errors",
     "Verif.C04.by_spec",
+    "Verif.C04.by_all_full_windows",
     "Verif.C04.by_ts_refused",
     "Verif.C04.by_window_spec",
     "Verif.C04.to_is_over",
@@ -33,6 +34,11 @@ THEOREMS = [
     "Verif.C04.like_kept_spec",
     "Verif.C04.like_within_span",
     "Verif.C04.like_repaired_kept_spec",
+    "Verif.C04.like_windows_disjoint",
+    "Verif.C04.like_kept_inside_span",
+    "Verif.C04.like_spec",
+    "Verif.C04.like_overlap_witness",
+    "Verif.C04.isolatedGrowth_flag",
     "Verif.C04.repair_spec",
     "Verif.C04.arith_spec",
     "Verif.C04.arith_refused",
@@ -488,6 +494,22 @@ def long_clause(case, ia):
 # ------------------------------------------------------------------ impl / ops
 
 
+def ref_kind_ts(ref):
+    return ref["kind"] == "ts"
+
+
+def isolated_growth(T):
+    """frame-rate changes of the reference are isolated: a period longer than its predecessor (the long frame of a
+    frame-rate change / the first frame of a slower rate) is not followed by a still longer one"""
+    d = [b - a for a, b in zip(T, T[1:])]
+    return all(not (d[j] > d[j - 1]) or d[j + 1] <= d[j] for j in range(1, len(d) - 1))
+
+
+def freq_value(rep):
+    """'int:<n>' -> Python int, anything else -> float (nan, inf, -inf, 0, -0.0, decimal literals)"""
+    return int(rep[4:]) if rep.startswith("int:") else float(rep)
+
+
 def _other_reduce(name):
     """a different reducer for the warm-up call on the same object (results must not depend on call history)"""
     return np.min if name == "max" else np.max
@@ -549,8 +571,38 @@ def _call(case):
         s = build(case["src"])
         ref = build(case["ref"])
         _warm(lambda: s.downsampled_like(ref, reduce=_other_reduce(case["reduce"])))
-        a, b = s.downsampled_like(ref, reduce=np_reduce(case["reduce"]))
-        return ["ok " + show(a.timestamps, a.data) + " " + enc_list(b.timestamps)]
+        out = []
+        try:
+            a, b = s.downsampled_like(ref, reduce=np_reduce(case["reduce"]))
+            out.append("ok " + show(a.timestamps, a.data) + " " + enc_list(b.timestamps))
+        except Exception as e:
+            out.append(errname(e))
+        # the windows themselves: a reduce callable that records what it is handed (and never fails on an empty one)
+        seen = []
+
+        def recorder(x, axis=None):
+            seen.append(np.array(x, dtype=float).ravel())
+            return 0.0
+
+        try:
+            a, _ = s.downsampled_like(ref, reduce=recorder)
+            ts = [int(t) for t in a.timestamps]
+            if len(ts) != len(seen):
+                out.append(f"length-mismatch {len(ts)} {len(seen)}")
+            else:
+                iso = "T" if ref_kind_ts(case["ref"]) and isolated_growth(case["ref"]["ts"]) else "F"
+                out.append(f"ok {iso} [" + ";".join(f"{t}|" + ",".join(enc_val(v) for v in w) for t, w in zip(ts, seen)) + "]")
+        except Exception as e:
+            out.append(errname(e))
+        return out if in_model(case) else out[:1]
+    if k == "getitem":
+        s = build(case["src"])
+        r = s[case["lo"] : case["hi"]]
+        return ["ok " + show(r.timestamps, r.data)]
+    if k == "tofx":
+        s = build(case["src"])
+        r = s.downsampled_to(freq_value(case["freq_repr"]), reduce=np_reduce(case["reduce"]), where=case["where"], method=case["method"])
+        return ["ok " + show(r.timestamps, r.data)]
     if k == "arith":
         a = build(case["a"])
         b = build(case["b"])
@@ -594,9 +646,10 @@ def ops(case):
         rg = "[" + ";".join(f"{a},{b}" for a, b in case["ranges"]) + "]"
         return [f"c04.over {src_tokens(case['src'])} {case['reduce']} {_tok(case['where'], ('center', 'left'))} {rg}"]
     if k in ("to", "toby"):
+        # the model converts the frequency itself (targetOfFreq: the same IEEE division and truncation)
         out = [
-            f"c04.to {src_tokens(case['src'])} {case['reduce']} {_tok(case['where'], ('center', 'left'))} "
-            f"{_tok(case['method'], ('safe', 'ceil', 'force'))} {target_of(case['freq'])}"
+            f"c04.tof {src_tokens(case['src'])} {case['reduce']} {_tok(case['where'], ('center', 'left'))} "
+            f"{_tok(case['method'], ('safe', 'ceil', 'force'))} {enc_float(case['freq'])}"
         ]
         if k == "toby":
             out.append(f"c04.by {src_tokens(case['src'])} {case['reduce']} {case['k']}")
@@ -614,7 +667,17 @@ def ops(case):
             f"c04.bywin {rule_tokens(src)} {case['reduce']} {case['k']} {wins}",
         ]
     if k == "like":
-        return [f"c04.likepw {src_tokens(case['src'])} {case['reduce']} {src_tokens(case['ref'])}"]
+        return [
+            f"c04.likepw {src_tokens(case['src'])} {case['reduce']} {src_tokens(case['ref'])}",
+            f"c04.likewins {src_tokens(case['src'])} {src_tokens(case['ref'])}",
+        ]
+    if k == "getitem":
+        return [f"c04.getitem {src_tokens(case['src'])} {case['lo']} {case['hi']}"]
+    if k == "tofx":
+        return [
+            f"c04.tof {src_tokens(case['src'])} {case['reduce']} {_tok(case['where'], ('center', 'left'))} "
+            f"{_tok(case['method'], ('safe', 'ceil', 'force'))} {enc_float(float(freq_value(case['freq_repr'])))}"
+        ]
     if k == "arith":
         return [f"c04.arith {case['operator']} {src_tokens(case['a'])} {src_tokens(case['b'])}"]
     raise ValueError(k)
@@ -864,6 +927,44 @@ def oracle_like(case, ans):
     return None, tg
 
 
+def oracle_like_windows(case, ans):
+    """the arrays downsampled_like hands to `reduce` (recorded by a callable): sample j of the result is computed from
+    exactly the source samples in [T - delta, T), windows of isolated frame-rate changes are disjoint and inside the span"""
+    toks = split_answer(ans)
+    if toks is None:
+        return None  # refusals are judged on the first answer
+    src, T = case["src"], list(case["ref"]["ts"])
+    body = toks[1][1:-1]
+    rows = [r.split("|") for r in body.split(";")] if body else []
+    samples = src_samples(src)
+    start, stop = src_span(src)
+    delta = like_deltas(T)
+    iso = isolated_growth(T)
+    prev_end = None
+    for t, vals in rows:
+        t = int(t)
+        if t not in T:
+            return f"like: window recorded for {t}, which is not a reference timestamp"
+        j = T.index(t)
+        a, b = t - delta[j], t
+        exp = [x for tt, x in samples if a <= tt < b]
+        got = [fr(v) for v in vals.split(",")] if vals else []
+        if got != exp:
+            return f"like: reduce was handed {str([str(v) for v in got])[:200]} for the sample at {t}; the source samples in [{a}, {b}) are {str([str(v) for v in exp])[:200]}"
+        if iso:
+            if prev_end is not None and a < prev_end:
+                return f"like: window [{a}, {b}) overlaps the previous one ending at {prev_end} (isolated frame-rate changes)"
+            if a < start or b > stop or a > b:
+                return f"like: window [{a}, {b}) does not lie within the source span [{start}, {stop})"
+            prev_end = b
+    if iso:
+        # every reference sample whose window lies inside the span is represented
+        want = [t for t, d in zip(T, delta) if start <= t - d and t < stop]
+        if [int(t) for t, _ in rows] != want:
+            return f"like: reference samples with a window inside the span are {want[:20]}, returned {[int(t) for t, _ in rows][:20]}"
+    return None
+
+
 def oracle(case, ia):
     k = case["op"]
     ans = ia[0]
@@ -918,7 +1019,27 @@ def oracle(case, ia):
                 return f"to-vs-by: downsampled_to(f_s/{case['k']}) returned {t1[0][:200]} but downsampled_by({case['k']}) returned {t2[1][:200]}"
         return None
     if k == "like":
-        return oracle_like(case, ans)[0]
+        c1 = oracle_like(case, ans)[0]
+        if c1 or len(ia) < 2:
+            return c1
+        return oracle_like_windows(case, ia[1])
+    if k == "getitem":
+        toks = split_answer(ans)
+        if toks is None:
+            return f"getitem: self[{case['lo']}:{case['hi']}] with integer bounds refused: {ans[:100]}"
+        exp = [(t, v) for t, v in src_samples(case["src"]) if case["lo"] <= t < case["hi"]]
+        if not samples_close(parse_samples(toks[0]), exp):
+            return f"getitem: self[{case['lo']}:{case['hi']}] must hold exactly the samples with a <= t < b: expected {str([(t, str(v)) for t, v in exp])[:300]}, got {toks[0][:300]}"
+        return None
+    if k == "tofx":
+        rep = case["freq_repr"]
+        fv = freq_value(rep)
+        bad = fv == 0 or fv < 0 or (isinstance(fv, float) and not math.isfinite(fv))
+        if not bad and not math.isfinite(1e9 / float(fv)):
+            bad = True
+        if bad:
+            return None if not ans.startswith("ok") else f"to: frequency {rep} accepted: {ans[:100]}"
+        return oracle_to(dict(case, freq=float(fv)), ans)[0]
     if k == "arith":
         a, b = case["a"], case["b"]
         if "tags" in (a["kind"], b["kind"]):
@@ -955,12 +1076,22 @@ def nontrivial(case, ia):
         return case["k"] >= 2 and len(parse_samples(toks[1])) >= 1
     if k == "arith":
         return len(parse_samples(toks[0])) >= 1
+    if k == "getitem":
+        got = len(parse_samples(toks[0]))
+        return 1 <= got < len(case["src"]["vals"])
+    if k == "tofx":
+        return len(parse_samples(toks[0])) >= 1
     return False
 
 
 def tags(case, r):
     t = {"op": case["op"]}
     k = case["op"]
+    if k == "tofx":
+        fv = freq_value(case["freq_repr"])
+        if fv > 0 and math.isfinite(fv):  # an ordinary frequency given as a Python int: the input class of "to"
+            return tags(dict(case, op="to", freq=float(fv)), r)
+        return t
     if k == "tobylong":
         clause, dev = long_clause(case, r["impl"])
         src = case["src"]
@@ -1319,6 +1450,10 @@ def cases(tier, rng):
     yield {"stream": "corpus", "op": "like", "src": cont(0, 2, [1, 1, 2, 2, 3, 3, 4, 4, 5, 5, 5, 5, 5, 5, 6, 6, 6, 7, 7, 7, 8, 8, 8, 9, 9, 9]),
            "ref": tser([0, 4, 8, 12, 16, 34, 40, 46, 50, 54], [0, 1, 2, 3, 4, 6, 7, 8, 9, 10]), "reduce": "mean"}
 
+    # reference whose period grows twice in a row (10, 20, 30, 30): the repaired windows overlap (like_overlap_witness);
+    # correspondence and value clauses only
+    yield {"stream": "corpus", "op": "like", "src": cont(0, 5, list(range(20))), "ref": tser([0, 10, 30, 60, 90], list(range(5))), "reduce": "sum", "ref_class": "arbitrary"}
+
     # ---- malformed stream (documented refusals, never data)
     c8 = cont(100, 10, list(range(8)))
     t8 = tser([100, 110, 125, 130, 150, 155, 170, 180], list(range(8)))
@@ -1364,6 +1499,9 @@ def cases(tier, rng):
         {"op": "arith", "operator": "sub", "a": t8, "b": c8},
         {"op": "arith", "operator": "div", "a": c8, "b": cont(100, 11, list(range(1, 9)))},
     ]
+    for rep in ("0", "-0.0", "nan", "inf", "-inf", "-2e7", "int:0", "int:-5", "1e300", "5e-324"):
+        for src_ in (c8, t8):
+            mal.append({"op": "tofx", "src": src_, "reduce": "mean", "where": "center", "method": "force", "freq_repr": rep})
     for m in mal:
         m = dict(m)
         m["stream"] = "malformed"
@@ -1435,6 +1573,31 @@ def cases(tier, rng):
             wins = list(itertools.product(edges, edges))
             for i, ws in enumerate(itertools.product(wins, repeat=3)):
                 yield {"stream": "small-scope", "op": "over", "src": src, "reduce": "median", "where": "center" if i % 2 else "left", "ranges": [list(w) for w in ws]}
+    # self[a:b] inside the loops: every pair of integer bounds in [start-2, stop+2] (theorem getitem_samples)
+    gi_sources = [cont(7, 1, [1, 2, 3]), cont(7, 3, [1, 2, 3, 4]), cont(7, 2, []), tser([3, 5, 6], [1, 2, 4]), tser([5], [1]), tser([3, 5, 5, 9], [1, 2, 4, 8]), tser([], [])]
+    for src in gi_sources:
+        span = src_span(src) or (0, 2)
+        edges = list(range(span[0] - 2, span[1] + 3))
+        for a_, b_ in itertools.product(edges, edges):
+            yield {"stream": "small-scope", "op": "getitem", "src": src, "lo": a_, "hi": b_}
+    # frequencies given as Python ints (1e9/f exact or truncated), every method
+    for fq in (10**9, 5 * 10**8, 3 * 10**8, 25 * 10**7, 2 * 10**8, 10**8, 7 * 10**7, 5 * 10**7):
+        for src in (cont(7, 1, list(range(11))), cont(7, 2, list(range(9))), cont(7, 5, list(range(7))), tser([0, 2, 4, 6, 8, 9, 15, 31], list(range(8)))):
+            for method in ("safe", "ceil", "force"):
+                yield {"stream": "small-scope", "op": "tofx", "src": src, "reduce": "sum", "where": "left" if fq % 3 else "center", "method": method, "freq_repr": f"int:{fq}"}
+    # like: references with every combination of 4 periods from {2, 3, 5} (81 period patterns: constant, isolated
+    # changes, double growth with sorted window starts) at three offsets: windows handed to reduce (c04.likewins)
+    for pat in itertools.product((2, 3, 5), repeat=4):
+        for off in (14, 20, 23):
+            T = [off]
+            for p_ in pat:
+                T.append(T[-1] + p_)
+            if not window_starts_sorted(T):
+                continue
+            cls = "regular" if isolated_growth(T) else "arbitrary"
+            if quick and (sum(pat) + off) % 2:
+                continue
+            yield {"stream": "small-scope", "op": "like", "src": cont(20, 1, list(range(1, 13))), "ref": tser(T, list(range(5))), "reduce": "sum", "ref_class": cls}
     # like: constant-rate references of period p at every offset against small continuous channels
     for n in ((6, 9) if quick else (4, 6, 9, 12)):
         for dt in (1, 2, 3):
@@ -1466,7 +1629,7 @@ def cases(tier, rng):
     r = r_random
     for i in range(N):
         sub = r.fork(i)
-        kind = sub.choice(["over", "over", "to", "to", "toby", "by", "like", "like", "like-arbitrary", "arith"])
+        kind = sub.choice(["over", "over", "to", "to", "toby", "by", "like", "like", "like-arbitrary", "arith", "getitem", "tof-any"])
         red = sub.choice(REDUCERS)
         where = sub.choice(["center", "left"])
         base = {"stream": "random", "subseed": i}
@@ -1496,6 +1659,28 @@ def cases(tier, rng):
             if f is None:
                 continue
             base.update({"op": "to", "src": src, "reduce": red, "where": where, "method": method, "freq": f})
+        elif kind == "getitem":
+            src = rand_cont(sub) if sub.chance(0.5) else rand_ts(sub)
+            pts = boundary_points(src, sub)
+            base.update({"op": "getitem", "src": src, "lo": sub.choice(pts), "hi": sub.choice(pts)})
+        elif kind == "tof-any":
+            # any frequency (no search for one whose conversion hits an intended step): the model converts it itself
+            src = rand_cont(sub, nmax=30) if sub.chance(0.6) else rand_ts(sub, nmax=20)
+            span = src_span(src)
+            if span is None or span[1] - span[0] < 2:
+                continue
+            width = span[1] - span[0]
+            if sub.chance(0.5):
+                fq = sub.randint(max(1, 10**9 // (width + 2)), 10**9)
+                tgt = int(1e9 / fq)
+                rep = f"int:{fq}"
+            else:
+                fq = 1e9 / sub.uniform(max(1.0, src.get("dt", 1) * 0.9), width + 2.0)
+                tgt = int(1e9 / fq)
+                rep = repr(fq)
+            if tgt > 0 and width % tgt == 0 and sub.chance(0.9):
+                continue  # mostly stay out of the input class of the known finding F3
+            base.update({"op": "tofx", "src": src, "reduce": red, "where": where, "method": sub.choice(["force", "force", "ceil", "safe"]), "freq_repr": rep})
         elif kind == "toby":
             src = rand_cont(sub)
             n = len(src["vals"])
@@ -1585,7 +1770,41 @@ def extra_coverage(results):
             outside += 1
         if c["op"] in ("to", "toby", "tobylong") and r["clause"]:
             f3 += 1
+    like_cls = {"isolated frame-rate changes": 0, "period grows twice in a row": 0, "refused": 0}
+    like_windows = {"recorded": 0, "empty": 0, "one sample": 0, "several samples": 0}
+    freq_forms = {}
+    getitem_sizes = {"empty result": 0, "part of the source": 0, "whole source": 0}
+    for r in results:
+        c = r["case"]
+        if c["op"] == "like" and len(r["impl"]) > 1:
+            toks = split_answer(r["impl"][1])
+            if toks is None:
+                like_cls["refused"] += 1
+            else:
+                like_cls["isolated frame-rate changes" if toks[0] == "T" else "period grows twice in a row"] += 1
+                body = toks[1][1:-1]
+                for row in (body.split(";") if body else []):
+                    vals = row.split("|")[1]
+                    nv = len(vals.split(",")) if vals else 0
+                    like_windows["recorded"] += 1
+                    like_windows["empty" if nv == 0 else "one sample" if nv == 1 else "several samples"] += 1
+        if c["op"] == "tofx":
+            rep = c["freq_repr"]
+            form = "python int" if rep.startswith("int:") else "float"
+            a0 = r["impl"][0]
+            key = form + " -> " + ("ok" if a0.startswith("ok") else a0)
+            freq_forms[key] = freq_forms.get(key, 0) + 1
+        if c["op"] == "getitem":
+            toks = split_answer(r["impl"][0])
+            if toks is not None:
+                g = len(parse_samples(toks[0]))
+                n = len(c["src"]["vals"])
+                getitem_sizes["empty result" if g == 0 else "whole source" if g == n else "part of the source"] += 1
     return {
+        "like_reference_classes (flag printed by the model = IsolatedGrowth)": like_cls,
+        "like_windows_handed_to_reduce": like_windows,
+        "frequency_forms_converted_by_the_model": freq_forms,
+        "getitem_results": getitem_sizes,
         "case_kinds": kinds,
         "error_kinds": errs,
         "source_sizes": sizes,
